@@ -2,16 +2,21 @@ package c15
 
 import (
 	"bytes"
+	"context"
 	"encoding/base64"
 	"fmt"
 	"io"
+	"net"
+	"strings"
 	"time"
 
 	"mellium.im/xmpp/ibb"
+	"mellium.im/xmpp/jid"
 
 	"mellium.im/xmpp/verifharness/core"
 	"mellium.im/xmpp/verifharness/ctrl"
 	"mellium.im/xmpp/verifharness/stall"
+	"mellium.im/xmpp/verifharness/xmltree"
 )
 
 // forcedCase is one of the scenarios I1-I3 of DESIGN.md appendix C.
@@ -26,7 +31,7 @@ type forcedCase struct {
 
 func runForced(c *core.Case) {
 	fc := &forcedCase{Kind: "forced", Seed: c.Rand.Int63()}
-	fc.Scenario = []string{"I1", "I2", "I3"}[(c.Index/10)%3]
+	fc.Scenario = []string{"I1", "I2", "I3", "I4"}[(c.Index/10)%4]
 	fc.Carrier = []string{"iq", "message"}[c.Rand.Intn(2)]
 	fc.N = 1 + c.Rand.Intn(40)
 	fc.Packets = 1 + c.Rand.Intn(2)
@@ -34,7 +39,114 @@ func runForced(c *core.Case) {
 		fc.Packets = 0
 	}
 	c.Sample(fc)
+	if fc.Scenario == "I4" {
+		execForcedExpect(c, fc)
+		return
+	}
 	execForced(c, fc)
+}
+
+// execForcedExpect is scenario I4: an Expect call waits for a stream; the peer
+// opens it; the serve loop has looked the waiting call up and is parked just
+// before it hands the stream over; the Expect call gives up (its context is
+// cancelled) and returns; the serve loop continues.  It must not wait for a
+// receiver that is gone: the stream is one like any other (Accept gets it) and
+// the session goes on serving.
+func execForcedExpect(c *core.Case, fc *forcedCase) {
+	base := stall.Snapshot(nil)
+	rp, err := newRawPeer()
+	if err != nil {
+		c.Count("setup_failures", 1)
+		return
+	}
+	defer rp.shutdown()
+	ctl := ctrl.New()
+	defer ctl.Close()
+	const sid = "forced-expect"
+	ln := rp.h.Listen(rp.p.S)
+	ectx, cancel := context.WithCancel(context.Background())
+	defer cancel()
+	type expRes struct {
+		conn net.Conn
+		err  error
+	}
+	ech := make(chan expRes, 1)
+	go func() {
+		var r expRes
+		c.Guard("ibb.Listener.Expect", func() { r.conn, r.err = ln.Expect(ectx, jid.MustParse(peerAddr), sid) })
+		ech <- r
+	}()
+	// the call is registered once it is parked in its select
+	registered := false
+	for i := 0; i < 2000 && !registered; i++ {
+		for id, p := range stall.Snapshot(func(fn string) bool { return strings.HasPrefix(fn, "ibb.(*Listener).Expect") }) {
+			if _, old := base[id]; !old && p.State == "select" {
+				registered = true
+			}
+		}
+		if !registered {
+			time.Sleep(time.Millisecond)
+		}
+	}
+	if !registered {
+		c.Notef("I4: Expect never reached its wait")
+		return
+	}
+	rule := ctl.Park("ibb.open.handoff", sid)
+	openDone := make(chan *xmltree.Node, 1)
+	go func() { openDone <- rp.open(sid, 4096, fc.Carrier) }()
+	if !rule.WaitArrived(grace) {
+		c.Notef("I4: the serve loop never reached ibb.open.handoff")
+		rule.Release()
+		return
+	}
+	c.Count("forced_I4_reached", 1)
+	cancel()
+	var er expRes
+	select {
+	case er = <-ech:
+	case <-time.After(grace):
+		c.Inconclusive("I4: Expect did not return after its context was cancelled")
+		rule.Release()
+		return
+	}
+	if er.err == nil {
+		// the hand-over had not begun: a cancelled Expect cannot have a stream
+		c.Violate("ibb:expect:stream-after-cancel", "I4: Expect returned a stream although its context was cancelled before the serve loop offered one")
+		rule.Release()
+		return
+	}
+	ach := acceptOne(ln)
+	rule.Release()
+	outcome := "ok"
+	select {
+	case conn := <-ach:
+		if conn == nil {
+			c.Violate("ibb:accept:nil", "I4: Accept returned no stream")
+			outcome = "nil"
+		} else {
+			c.Count("forced_I4_stream_went_to_accept", 1)
+		}
+	case <-time.After(grace):
+		if stuck := newParked(base, func(fn string) bool { return strings.HasPrefix(fn, "ibb.handleOpen") }); len(stuck) > 0 {
+			c.Violate(stall.Key(stuck[0]), "I4: the Expect call the stream had been looked up for gave up before the hand-over; the serve loop waits for it for good (Accept is waiting, nothing else can happen):\n%s", stuck[0].Stack)
+			c.Sig("forced I4 %s outcome=stall", fc.Carrier)
+			return
+		}
+		c.Inconclusive("I4: Accept did not get the stream and the stall rule does not apply")
+		return
+	}
+	if rep := <-openDone; rep == nil || rep.Attr("type") != "result" {
+		c.Violate("ibb:open:listener-refused", "I4: <open/> for a stream with a listener was answered with %v", rep)
+		outcome = "refused"
+	}
+	if !rp.barrier() {
+		c.Violate("ibb:session-ended", "I4: after the hand-over the session no longer answers")
+		outcome = "dead"
+	}
+	rp.closeSID(sid)
+	c.Count("forced_scenarios", 1)
+	c.Sig("forced I4 %s outcome=%s", fc.Carrier, outcome)
 }
 
 type readRes struct {
